@@ -354,3 +354,6 @@ def run(tier, seed):
                 shards.append(("run", name, N, G, seed))
     col = run_shards(_shard, shards)
     return col, {"exhaustive": True}
+
+
+RULE += (' The gradient evaluator as the GradientDescent algorithm drives it: five step rules x min/max x n in {1,2,3} x 1 and 3 iterations x two starts.')
